@@ -90,6 +90,11 @@ def judge(res, v, name, text, tag, rank):
             i = [k for k in range(len(lines)) if got_leaves[k] != want_leaves[k]][0]
             seg = want_names[i]
             cause = 'gap' if tables.has_gap(v, seg) else 'row-anomaly' if tables.row_anomalies(v, seg) else tag.split(':')[0]
+            if tag.startswith('withdrawn:') and sorted(got_leaves[i]) == sorted(want_leaves[i]):
+                # known shape (D17): the value at the withdrawn number is kept but encoded after the named fields
+                res.violation('withdrawn-field-number-reordered|%s|%s' % (v, seg), 'v%s find_groups=%s: segment %r re-encoded as %r' % (v, fg, lines[i], olines[i]),
+                              point, rank)
+                continue
             res.violation('leaf-loss|%s|%s|%s|fg=%s' % (cause, v, seg, fg), 'v%s %s [%s] find_groups=%s: segment %r re-encoded as %r' % (v, name, tag, fg, lines[i], olines[i]),
                           point, rank)
             continue
@@ -146,6 +151,22 @@ def struct_unit(v, names, tier, res):
                         res.nontrivial += 1
                         judge(res, v, name, '\r'.join(lines), '%s-in-rep2:pos%d' % (kind, pos), len(lines))
                     res.dims['structures with rep2 insertions'] += 1
+            # every line of the instance with every group once and all optional children, duplicated in place (a segment
+            # allowed once recurring inside nested, optional, non-repeatable groups)
+            trees1 = [t for label, t in st.instances(v, name, ('all',))]
+            if trees1:
+                segs1 = st.flatten(trees1[0])
+                if segs1 and segs1[0] != 'MSH':
+                    segs1 = ['MSH'] + [s for s in segs1 if s != 'MSH']
+                if len(segs1) > len(segs) and len(segs1) <= 45:
+                    base1 = [st.msh_line(v, name)] + [body(v, s, k) for k, s in enumerate(segs1[1:], 1)]
+                    for pos in range(2, len(base1) + 1):
+                        lines = base1[:pos] + [base1[pos - 1]] + base1[pos:]
+                        res.states += 1
+                        res.enumerated += 1
+                        res.nontrivial += 1
+                        judge(res, v, name, '\r'.join(lines), 'dup-in-all:pos%d' % pos, len(lines))
+                    res.dims['structures with duplications in the all-children instance'] += 1
         res.dims['structures'] += 1
     res.sample({'v': v, 'structures': list(names)[:3]}, cap=3)
 
@@ -212,10 +233,79 @@ def excess_unit(v, res):
         res.nontrivial += 1
         judge(res, v, name, '\r'.join([st.msh_line(v, name), 'EVN', 'PID|1', 'PV1|1', line]), 'excess:' + tag, 4)
     res.dims['varies lines'] += len(vcases)
+    # a value at a field number that the version's table skips (withdrawn field), followed by a value in a later, named field
+    for seg in tables.segment_names(v):
+        if tables.segment_anomaly(v, seg) or not tables.has_gap(v, seg) or seg == 'MSH':
+            continue
+        nums = [i for i, fr in tables.field_rows(v, seg) if i] or [0]
+        missing = [g for g in range(2, max(nums)) if g not in nums]
+        later = [n for n in nums if missing and n > missing[0]]
+        if not missing or not later:
+            continue
+        g, n = missing[0], later[0]
+        fields = [''] * n
+        fields[g - 1] = 'w'
+        fields[n - 1] = 'z'
+        line = seg + '|' + '|'.join(fields)
+        lines = [st.msh_line(v, name), 'EVN', 'PID|1', 'PV1|1']
+        if seg in ('EVN', 'PID', 'PV1'):
+            lines[['EVN', 'PID', 'PV1'].index(seg) + 1] = line
+        else:
+            lines.append(line)
+        res.states += 1
+        res.enumerated += 1
+        res.nontrivial += 1
+        judge(res, v, name, '\r'.join(lines), 'withdrawn:%s_%d' % (seg, g), 5)
+        res.dims['values at withdrawn field numbers'] += 1
+
+
+def xver_unit(va, vb, res):
+    """what parsing a message of version va leaves behind must not reach a message of version vb: for every segment that
+    has more fields in vb than in va, a va message carrying fields beyond va's count is parsed first, then the vb message
+    with values in the first field va lacks and in the last field of vb is judged like any other text"""
+    from hl7apy.parser import parse_message
+    name = 'ADT_A01'
+    la, lb = common.libs()[va], common.libs()[vb]
+    for seg in tables.segment_names(vb):
+        if seg == 'MSH' or seg not in la.SEGMENTS or tables.segment_anomaly(va, seg) or tables.segment_anomaly(vb, seg):
+            continue
+        if tables.has_gap(vb, seg) or tables.row_anomalies(vb, seg):
+            continue
+        na = max([i for i, fr in tables.field_rows(va, seg) if i] or [0])
+        nb = max([i for i, fr in tables.field_rows(vb, seg) if i] or [0])
+        if not (0 < na < nb):
+            continue
+        first = [st.msh_line(va, name), 'EVN', 'PID|1', 'PV1|1']
+        fa = [''] * (na + 1)          # exactly one field beyond the count of va
+        fa[na] = 'x'
+        line_a = seg + '|' + '|'.join(fa)
+        try:
+            parse_message('\r'.join(first + [line_a]), validation_level=TOLERANT).to_er7()
+        except Exception:
+            pass
+        fb = [''] * nb
+        fb[na] = 'p'
+        fb[nb - 1] = 'q'
+        if na >= 1:
+            fb[0] = '1'
+        lines = [st.msh_line(vb, name), 'EVN', 'PID|1', 'PV1|1']
+        line_b = seg + '|' + '|'.join(fb)
+        if seg in ('EVN', 'PID', 'PV1'):
+            lines[['EVN', 'PID', 'PV1'].index(seg) + 1] = line_b
+        else:
+            lines.append(line_b)
+        res.states += 1
+        res.enumerated += 1
+        res.nontrivial += 1
+        judge(res, vb, name, '\r'.join(lines), 'after-v%s:%s' % (va, seg), 5)
+    res.dims['cross-version pairs'] += 1
 
 
 def units(tier):
     us = []
+    for a, b in zip(VERSIONS, VERSIONS[1:]):
+        us.append(('xver', a, b))
+        us.append(('xver', b, a))
     for v in VERSIONS:
         names = tables.concrete_message_names(v)
         for i in range(0, len(names), 8):
@@ -231,6 +321,8 @@ def run_unit(unit, tier):
     res = Result()
     if unit[0] == 'struct':
         struct_unit(unit[1], unit[2], tier, res)
+    elif unit[0] == 'xver':
+        xver_unit(unit[1], unit[2], res)
     elif unit[0] == 'words':
         words_unit(unit[1], unit[2], unit[3], res)
     else:
